@@ -623,8 +623,11 @@ def handleCodec (id : String) (args : List String) : String :=
             (match Codec.runMode mode t y stale with
              | some out =>
                let m : Obs := if out = ascii "panic" then .panic else if out = ascii "fuel" then .hang else .ok out
-               -- an unchecked entry point on an ill-formed text is outside the library's use: no property
-               some (m, if (parseCst y).isSome then .ok else .unspec)
+               -- an unchecked entry point on an ill-formed text is outside the library's use: no property.  On a
+               -- well-formed text the decoder model is PROVED to return the specified value and, for objects, the member
+               -- names in document order (`C17decode.decode_spec`, `decode_mapraw`, …): a result that differs from it
+               -- is a decoded value or key list that is not the text's (as for `enc`, agreement is the verdict)
+               some (m, if (parseCst y).isSome then (if sameObs m obs then .ok else .viol "decoder-differs") else .unspec)
              | none => none)
           | _, _ => none
         else none
@@ -676,8 +679,9 @@ def handleCli (id : String) (args : List String) : String :=
         let files : Option (List (Option Bytes)) := fileFields.mapM fun f => if f = "MISSING" then some none else (hexField f).map some
         match files, hexField outS, exitS.toNat?, hexField libS, libExitS.toNat?, errLenS.toNat? with
         | some fs, some out, some ex, some lib, some libEx, some errLen =>
-          let (mOut, mEx) := cliRun stdin fs
-          -- the model covers the v5 command; the legacy command is compared with its own library only
+          -- the model covers the v5 command; the legacy command, and the multi-megabyte runs (`v5big`, `v4big`: the two
+          -- outputs arrive as SHA-256 digests), are compared with the fold of their own library only
+          let (mOut, mEx) := if pkg = "v5" then cliRun stdin fs else ([], 0)
           let corr := pkg ≠ "v5" || (lib = mOut && ((libEx = 0) = (mEx = 0)))
           let v20 : Verdict :=
             if ex = 0 then (if libEx = 0 ∧ out = lib then .ok else .viol "stdout-differs-from-fold")
